@@ -368,12 +368,14 @@ static int spawn(int ui, bool single) {
 
 static std::map<std::string, Crash> g_confirmed;
 
-// two deviations (thorough) on 8 corner headers; one deviation everywhere else
+// two deviations (thorough) on 4 headers (2 vars + common expr + function with one constraint / one logical
+// constraint / one objective; 0 vars with one of each); one deviation everywhere else
 static bool two_dev_unit(const Unit &u) {
   const mp::NLHeader &h = u.header;
   if (h.num_vars == 1 || h.num_funcs != 1 || (h.num_common_exprs() == 1) != (h.num_vars > 0)) return false;
   int a = h.num_algebraic_cons, l = h.num_logical_cons, o = h.num_objs;
-  return (a == 1 && l == 0 && o == 0) || (a == 0 && l == 1 && o == 0) || (a == 0 && l == 0 && o == 1) || (a == 1 && l == 1 && o == 1);
+  if (h.num_vars == 0) return a == 1 && l == 1 && o == 1;
+  return (a == 1 && l == 0 && o == 0) || (a == 0 && l == 1 && o == 0) || (a == 0 && l == 0 && o == 1);
 }
 enum { NSPLIT2 = 16 };
 
@@ -455,7 +457,7 @@ int main(int argc, char **argv) {
     return 0;
   }
   if (vx::has_flag(argc, argv, "--dump-units")) {
-    for (auto &u : g_units) { std::vector<std::vector<Alt>> A(u.base.t.size()); printf("=== %s\n%s", u.name.c_str(), render(u.base, TEXT, {}, A, A, false).c_str()); }
+    for (auto &u : g_units) { std::vector<std::vector<Alt>> A(u.base.t.size()); printf("=== %s\n%s", u.name.c_str(), render(u.base, TEXT, {}, A).c_str()); }
     return 0;
   }
   { std::string cmd = "mkdir -p '" + g_work + "'"; if (system(cmd.c_str()) != 0) { Rp.broken("cannot create work dir"); Rp.done(); return 0; } }
